@@ -119,8 +119,15 @@ func (f *faultGen) regionBody(region string, depth int) *Block {
 			if depth >= 1 && g.R.Intn(2) == 0 {
 				switch g.R.Intn(3) {
 				case 0:
-					b.Stmts = append(b.Stmts, CallSN("error", Str("Eown")))
+					// (no blanks: blank-containing messages are compared as "some run-time message";
+					// the percent signs must arrive untouched)
+					b.Stmts = append(b.Stmts, CallSN("error", Str([]string{"Eown", "Eown100%full", "E%d%s%v%%own", "%"}[g.R.Intn(4)])))
 				case 1:
+					if g.R.Intn(2) == 0 {
+						// the fault is the first instruction of a function whose body starts on another line
+						b.Stmts = append(b.Stmts, Local1(g.fresh("z"), Call(Fn([]string{"p"}, false, Blk(Return(Dot(N("p"), "x")))))))
+						break
+					}
 					b.Stmts = append(b.Stmts, Local1(g.fresh("z"), Bin("+", &ENil{}, Num(1))))
 				default:
 					b.Stmts = append(b.Stmts, CallSN("error", &ETable{}))
@@ -214,6 +221,11 @@ func (g *Gen) FaultProgram(opts FaultOpts) *Chunk {
 		CallSN("emit", Str("post:co"), Call(N(co), Num(1)), Call(N(co), Num(10))),
 		CallSN("emit", Str("post:lib"), &EMethod{Obj: Str("ab"), Name: "rep", Args: []Expr{Num(3)}}, Call(Dot(N("table"), "concat"), &ETable{Items: []TItem{{Kind: TPos, Val: Num(1)}, {Kind: TPos, Val: Num(2)}}}, Str("-"))),
 		CallSN("emit", Str("post:pcall"), CallN("pcall", N("error"), Str("Epost"))),
+		// a coroutine driven by the host through the Go API: contained errors leave the host's stack alone
+		CallSN("emit", Str("post:goresume"), CallN("goresume", Fn([]string{"a"}, false, Blk(CallSN("error", &ETable{Items: []TItem{{Kind: TName, Name: "code", Val: N("a")}}}))), Num(5))),
+		CallSN("emit", Str("post:goresume2"), CallN("goresume", Fn([]string{"a"}, false, Blk(CallSN("error", Str("Eres%d")))), Num(6))),
+		CallSN("emit", Str("post:goresume3"), CallN("goresume", Fn([]string{"a"}, false, Blk(Return(Bin("+", N("a"), Num(1)), Str("two")))), Num(7))),
+		CallSN("emit", Str("post:goresume4"), CallN("pcall", N("goresume"), Fn(nil, false, Blk(Local1("z", Bin("+", &ENil{}, Num(1))))))),
 		CallSN("emit", Str("post:pcall-ok"), CallN("pcall", Fn(nil, false, Blk(Return(Num(1), Num(2)))))),
 		CallSN("emit", Str("post:select"), CallN("select", Str("#"), Num(1), &ENil{}, &ENil{})),
 	)}})
